@@ -72,7 +72,14 @@ def execute(case):
                 last_life[wname] = ev
         seen[0] = len(evs)
 
+    orphaned = set()     # watchers removed with nostop: their workers are
+                         # deliberately left alone and no longer reported
+
     def on_op(h_, i, op):
+        if op[0] == 'req' and op[1] == 'rm' and op[2].get("nostop"):
+            rep = h_.reqs[i].reply()
+            if rep is None or rep.get("status") == "ok":
+                orphaned.add(op[2].get("name"))
         consume()
 
     try:
@@ -94,9 +101,12 @@ def execute(case):
                             'C09:listed-without-spawn-event', 'pid %r listed '
                             'for %s never had a spawn event' % (pid, name)))
             # reconstruction
+            def kept(p):
+                return k.procs[p].owner not in orphaned
             recon = sorted(p for p in spawned
-                           if p not in reaped and p not in killed)
-            live = sorted(w.eff_live())
+                           if p not in reaped and p not in killed and
+                           kept(p))
+            live = sorted(p for p in w.eff_live() if kept(p))
             if recon != live:
                 only_ev = [p for p in recon if p not in live]
                 only_k = [p for p in live if p not in recon]
@@ -117,6 +127,8 @@ def execute(case):
                     continue
                 pid = d["pid"]
                 if k.procs[pid].kind != 'worker' or pid not in spawned:
+                    continue
+                if k.procs[pid].owner in orphaned:
                     continue
                 if pid in kill_time and kill_time[pid] <= d["t"] + 1e-9:
                     continue      # supervisor was already terminating it
@@ -164,7 +176,7 @@ def replay(case):
 
 def _strategy():
     return lifecycle_cases(statuses_full=True, respawn_false=True,
-                           kill_cmd=True, set_other=True)
+                           kill_cmd=True, set_other=True, rm=True)
 
 
 def plan(tier, seed):
